@@ -464,7 +464,7 @@ pub fn run(ctx: &Ctx) -> i32 {
             ],
             exhaustive: false,
             extra: Default::default(),
-            min_nontrivial: 500,
+            min_nontrivial: 50,
         },
     )
 }
